@@ -136,6 +136,31 @@ def collect_views(ca: pa.ChunkedArray, arr: NEA):
         agree = False
         notes.append("get_list_series differs from to_lists")
 
+    # the per-row numpy view (what NestedFrame.reduce hands to user functions): row i of field f is the numpy form of
+    # row i of the list view TAKEN ALONE - dtype, shape and values; in particular it does not depend on what other rows
+    # of the same Arrow chunk hold (a null elsewhere must not turn this row's integers into rounded doubles)
+    def np_form(x):
+        x = np.asarray(x)
+        return (str(x.dtype), tuple(x.shape), repr(x.tolist()))
+
+    def iter_lists_view():
+        df = s.nest.to_lists()
+        bad = []
+        for c in names:
+            pl = df[c].array._pa_array.combine_chunks()
+            got = list(arr.iter_field_lists(c))
+            if len(got) != n:
+                return [f"iter_field_lists({c!r}) yields {len(got)} arrays for {n} rows"]
+            for i in range(n):
+                want = np_form(np.asarray(pl[i].values))
+                if np_form(got[i]) != want:
+                    bad.append(f"iter_field_lists({c!r}) row {i}: {np_form(got[i])} but the row alone is {want}")
+        return bad
+    v_iter = attempt(iter_lists_view)
+    if v_lists[0] == "ok" and (v_iter[0] != "ok" or v_iter[1]):
+        agree = False
+        notes.append(f"iter_field_lists differs from the list view row by row: {str(v_iter[1])[:300]}")
+
     # the same views restricted to a selection of fields that is NOT a prefix of the struct order: the requested fields,
     # in the requested order, each holding what the all-fields view holds for it
     sel = names[::-1][: max(1, len(names) - 1)]
